@@ -294,8 +294,20 @@ Inductive obs_parse :=
 Inductive obs_eval :=
 | VMatch (leaf_values : list (N * bool)) (t : trace)
     (* truth value of every leaf on the model value used; the matching trace observed *)
-| VTrans (leaf_funs : list (N * (bool * list (N * N)))) (input output : list N).
+| VTrans (leaf_funs : list (N * (bool * list (N * N)))) (input output : list N)
     (* per leaf: is_identity_transformer, its action on characters; the text given and obtained *)
+| VFilter (rows : list (list (N * bool) * N)) (output : list N).
+    (* the expression (a line matcher, or an integer matcher under [line-num]) used as [filter E] on a
+       text: per line the truth of every leaf on that line and the line's content (an identifier);
+       the contents of the lines of the output *)
+
+(** [filter E] keeps the lines on which E, evaluated by [holds] with the line's leaf values, is true *)
+Definition filter_lines (holds : (N -> bool) -> bool) (rows : list (list (N * bool) * N)) : list N :=
+  map snd (filter (fun row => holds (fun w => match (fix look (t : list (N * bool)) : option bool :=
+                                                          match t with
+                                                          | [] => None
+                                                          | (k, v) :: r => if k =? w then Some v else look r
+                                                          end) (fst row) with Some b => b | None => false end)) rows).
 
 Record case := Case {
   c_matcher : bool;          (* matcher grammar (integer, line, text, file, files) / text transformer *)
@@ -339,6 +351,9 @@ Definition corr_case (c : case) : bool :=
                  | VMatch tbl t => covered tbl e' && trace_eqb (eval (lv_of tbl) e') t
                  | VTrans tbl x y =>
                      covered tbl e' && list_eqb N.eqb (transform (list N) (lf_of tbl) (lid_of tbl) e' x) y
+                 | VFilter rows y =>
+                     forallb (fun row => covered (fst row) e') rows &&
+                     list_eqb N.eqb y (filter_lines (fun lv => tr_value (eval lv e')) rows)
                  end) (c_eval c)
   | Err _, OErr => true
   | _, _ => false
@@ -381,6 +396,10 @@ Definition prop_case (c : case) : bool :=
                      covered tbl e' && Bool.eqb (tr_value t) (sem (lv_of tbl) e')
                      && list_eqb N.eqb (trace_leaves t) (evaluated (lv_of tbl) e')
                  | VTrans tbl x y => covered tbl e' && list_eqb N.eqb y (pipe_sem (lf_of tbl) e' x)
+                 | VFilter rows y =>
+                     (* the value of E inside [filter] is the value computed from its structure, line by line *)
+                     forallb (fun row => covered (fst row) e') rows &&
+                     list_eqb N.eqb y (filter_lines (fun lv => sem lv e') rows)
                  end) (c_eval c)
   end.
 
